@@ -282,7 +282,15 @@ func (m *docMut) writeUnknown(sb *strings.Builder, sep func()) {
 	if m.kind == "nested-unknown" {
 		sb.Write(Doc(m.r, 3))
 	} else {
-		sb.WriteString(wrongKinds[m.r.Intn(len(wrongKinds))])
+		// a scalar the decoder has to step over: strings with every escape class, number forms
+		switch m.r.Intn(4) {
+		case 0:
+			sb.Write(StrLit(m.r))
+		case 1:
+			sb.Write(NumLit(m.r))
+		default:
+			sb.WriteString(wrongKinds[m.r.Intn(len(wrongKinds))])
+		}
 	}
 	m.done = true
 }
